@@ -429,16 +429,17 @@ class ContinuousJsrun(AgentSchedulingComponent):
             colo_tag = str(colo_tag)
 
         # in case of PRTE LM: the `slots` attribute may have a partition ID set
-        partition_id = td.get('partition', 0)
-        if self._partition_ids:
+        partition_id = td.get('partition')
+        if partition_id is not None:
+
             if partition_id not in self._partition_ids:
                 raise ValueError('partition id (%d) out of range'
                                  % partition_id)
 
             # partition id becomes a part of a co-locate tag
+            # NOTE: the nodes of a partition are not known at this point, so
+            #       the partition itself does not constrain the node selection
             colo_tag = str(partition_id) + ('' if not colo_tag else '_%s' % colo_tag)
-            if colo_tag not in self._colo_history:
-                self._colo_history[colo_tag] = self._partition_ids[partition_id]
         task_partition_id = None
 
         # what remains to be allocated?  all of it right now.
